@@ -413,6 +413,22 @@ class C18(Check):
                 back = pickle.loads(bytes.fromhex(ans["repickle"]))
                 if digest(describe(back)) != want or not (back == o) or hash(back) != hash(o):
                     out.fail("C18.pickle", "%s (%s): object pickled back by the peer differs / unequal / different hash" % (k, type(o).__name__), "pickle-back:" + type(o).__name__)
+            # (3b) directed: a structure with many fields built through the public constructors survives pickling (the operator
+            # graph behind its bit length set is as deep as the structure is long)
+            if scn["pick_seed"] % 8 == 0:
+                from pathlib import Path as _P
+                nf = [40, 70, 160, 200][scn["pick_seed"] // 8 % 4]
+                u3 = pydsdl.UnsignedIntegerType(3, pydsdl.PrimitiveType.CastMode.TRUNCATED)
+                big = pydsdl.StructureType(name="deep.Long", version=pydsdl.Version(1, 0), attributes=[pydsdl.Field(u3, "f%d" % i) for i in range(nf)], deprecated=False,
+                                           fixed_port_id=None, source_file_path=_P("deep") / "Long.1.0.dsdl", has_parent_service=False)
+                out.stats["many_field_structures_pickled"] += 1
+                try:
+                    back = pickle.loads(pickle.dumps(big))
+                    if not (back == big) or hash(back) != hash(big) or str(back) != str(big) or back.bit_length_set.max != big.bit_length_set.max or len(back.fields) != nf:
+                        out.fail("C18.pickle", "a structure with %d fields: the pickle round trip changed the object" % nf, "pickle-many-fields-differs")
+                except RecursionError:
+                    out.fail("C18.pickle", "a structure with %d uint3 fields cannot be pickled: RecursionError" % nf,
+                             "pickle-recursion:fields>=150" if nf >= 150 else "pickle-recursion:fields<=70")
             # (4) BitLengthSet: never unequal for extensionally equal sets
             for k, o in oa:
                 if isinstance(o, pydsdl.BitLengthSet) and (o.max - o.min) <= 2048:
